@@ -50,8 +50,9 @@ int main(int argc, char **argv) {
     { const char *av[] = {"tb_harness", nullptr}; contextp->commandArgs(1, av); }
     const std::unique_ptr<Vhex_pkg> top{new Vhex_pkg{contextp.get(), "TOP"}};
     try {
-      // size of what load() copies: the whole remaining file rounded up to 4
-      { std::ifstream f(bin, std::ios::binary); f.seekg(0, std::ios::end); imageBytes = ((size_t)f.tellg() - 4 + 3) & ~(size_t)3; }
+      // size of what load() reads: the words the header announces (as far as the file holds them)
+      { std::ifstream f(bin, std::ios::binary); f.seekg(0, std::ios::end); size_t rest = (size_t)f.tellg() - 4; f.seekg(0);
+        uint32_t hw = 0; f.read(reinterpret_cast<char*>(&hw), 4); imageBytes = std::min((size_t)hw * 4, rest); }
       // optional fill of non-image memory before load
       for (int i = 4; i < argc; i++) {
         std::string a = argv[i];
